@@ -99,6 +99,24 @@ pub fn run_case(c: &Case, drv: &mut Drv, rep: &mut Report) {
                     }
                 }
             }
+            // a reader configured with another bits-per-key setting (options change between the session
+            // that wrote a table and the one that reads it): the probe count stored in the filter decides
+            let other_bpk = ((*bpk * 7 + 3) % 64) + 1;
+            let reader = BloomFilterPolicy::new(other_bpk);
+            for k in keys.iter() {
+                if let Ok(false) = reader.key_may_match(k, &filter) {
+                    rep.fail("oracle", "c14:bloom-false-negative-with-other-reader-setting", &format!("key {} of the seed set (filter built with {bpk} bits per key) is rejected by a policy configured with {other_bpk} bits per key", hex(k)), &line);
+                    return;
+                }
+            }
+            for p in probes.iter() {
+                let a = policy.key_may_match(p, &filter).ok();
+                let b = reader.key_may_match(p, &filter).ok();
+                if a != b {
+                    rep.fail("oracle", "c14:bloom-answer-depends-on-reader-setting", &format!("probe {}: a policy with {bpk} bits per key answers {a:?}, one with {other_bpk} answers {b:?} on the same filter", hex(p)), &line);
+                    return;
+                }
+            }
             // model: bytes
             let mut req = format!("bloom.create {}", bpk);
             for k in keys {
